@@ -310,7 +310,10 @@ class FieldValueComponentKeyValueBase(FieldValueComponentBase):
         cls._parse_value(parser)
         parsed_value = parser['value']
         if cls.get_canonical_name():
-            parsed_value = cls(parsed_value)
+            try:
+                parsed_value = cls(parsed_value)
+            except TypeError as e:
+                six.raise_from(InvalidValue(parsed_value, cls, 'value'), e)
 
         return parsed_value, parser.parsed_length
 
